@@ -93,10 +93,243 @@ fn main() {
             }
             code
         }
+        Some("big32") => big32(),
+        Some("bighist") => {
+            let seed: u64 = arg(&args, "--seed").unwrap_or("20261003").parse().unwrap();
+            let from: u64 = arg(&args, "--from").unwrap_or("0").parse().unwrap();
+            let to: u64 = arg(&args, "--to").unwrap_or("1").parse().unwrap();
+            let steps: usize = arg(&args, "--steps").unwrap_or("24").parse().unwrap();
+            let mut code = 0;
+            for i in from..to {
+                println!("BIGHIST {i}");
+                code = bighist(seed, i, steps);
+                if code != 0 {
+                    break;
+                }
+            }
+            code
+        }
+        Some("big32-min") => {
+            // smallest reproducer of the allocation-start confusion: capacity above the 24-bit
+            // limit, length below it
+            let s = lean_string::LeanString::with_capacity((1 << 24) + 8);
+            drop(s);
+            println!("big32-min ok");
+            0
+        }
         _ => {
-            eprintln!("usage: mirisim conc|conc-json|hist ...");
+            eprintln!("usage: mirisim conc|conc-json|hist|big32 ...");
             2
         }
     };
     std::process::exit(code);
+}
+
+/// Directed history over strings longer than 2^24 - 2 bytes. On 32-bit targets the length of such a
+/// string no longer fits the handle and lives in the heap block, in front of the header; `truncate`
+/// and `pop` on a *shared* buffer then have to copy (the only place where they can fail). No random
+/// generation here: an interpreter cannot afford per-character work on 17 MB, so every check below is
+/// a bulk comparison.
+fn big32() -> i32 {
+    use lean_string::LeanString;
+    const N: usize = (1 << 24) + 1000;
+    let mut model = "ab".repeat(N / 2);
+    let a = LeanString::from(model.as_str());
+    let check = |what: &str, s: &LeanString, m: &str| {
+        if s.len() != m.len() || s.as_bytes() != m.as_bytes() || s.capacity() < s.len() {
+            println!("VIOLATION-DETAIL {{\"invariant\":\"big32_mismatch\",\"detail\":\"{what}: len {} vs {}\"}}", s.len(), m.len());
+            std::process::exit(1);
+        }
+    };
+    check("from", &a, &model);
+    assert!(a.is_heap_allocated());
+    // shared, then shortened while shared, still above the 24-bit limit: the other owner is untouched
+    let mut b = a.clone();
+    assert_eq!(a.as_ptr(), b.as_ptr());
+    b.truncate(N - 10);
+    check("truncate while shared (long)", &b, &model[..N - 10]);
+    check("co-owner after truncate", &a, &model);
+    // pop on a shared long string
+    let mut c = a.clone();
+    assert_eq!(c.pop(), Some('b'));
+    check("pop while shared", &c, &model[..N - 1]);
+    check("co-owner after pop", &a, &model);
+    // shortened below the limit while shared: must not touch the length stored in the shared block
+    let mut d = a.clone();
+    d.truncate(40);
+    check("truncate while shared (short)", &d, &model[..40]);
+    check("co-owner after short truncate", &a, &model);
+    d.push('!');
+    check("push after short truncate", &d, &format!("{}!", &model[..40]));
+    // unique long string: in-place truncate, push, realloc across the 24-bit limit both ways
+    drop(b);
+    drop(c);
+    drop(d);
+    let mut u = a; // sole owner now
+    u.truncate(N - 100);
+    model.truncate(N - 100);
+    check("truncate unique", &u, &model);
+    u.push_str("xyz");
+    model.push_str("xyz");
+    check("push unique", &u, &model);
+    u.truncate((1 << 24) - 50);
+    model.truncate((1 << 24) - 50);
+    u.shrink_to_fit();
+    check("shrink below the limit", &u, &model);
+    assert_eq!(u.capacity(), u.len());
+    u.reserve(1000);
+    u.push_str(&"q".repeat(200));
+    model.push_str(&"q".repeat(200));
+    check("grow across the limit", &u, &model);
+    let v = u.clone();
+    u.clear();
+    check("clear shared", &u, "");
+    check("co-owner after clear", &v, &model);
+    drop(u);
+    let mut w = v.clone();
+    w.clone_from(&v);
+    check("clone_from", &w, &model);
+    w.remove(0);
+    check("remove on shared long", &w, &model[1..]);
+    check("co-owner after remove", &v, &model);
+    println!("big32 ok ({} byte words)", std::mem::size_of::<usize>());
+    0
+}
+
+/// Seeded random histories over a small pool of handles whose lengths and capacities straddle the
+/// 24-bit limit (2^24 - 2), using only operations and checks that work in bulk (an interpreter cannot
+/// afford per-character work on 16 MiB). On 32-bit targets this walks every transition between
+/// "length in the handle" and "length in the heap block", shared and unshared.
+fn bighist(seed: u64, index: u64, steps: usize) -> i32 {
+    use lean_string::LeanString;
+    use simcore::rng::{Rng, domain, mix};
+    const LIMIT: usize = (1 << 24) - 2;
+    let mut rng = Rng::new(mix(seed, domain("bighist"), index));
+    let mut pool: Vec<Option<(LeanString, String)>> = (0..4).map(|_| None).collect();
+    let fail = |what: &str, step: usize| -> i32 {
+        println!("VIOLATION-DETAIL {{\"invariant\":\"bighist_mismatch\",\"detail\":\"history {index} step {step}: {what}\"}}");
+        1
+    };
+    let around = |rng: &mut Rng| -> usize {
+        match rng.below(6) {
+            0 => LIMIT - rng.below(3),
+            1 => LIMIT + 1 + rng.below(3),
+            2 => LIMIT - 1000 - rng.below(5000),
+            3 => LIMIT + 1000 + rng.below(5000),
+            4 => rng.range(17, 200),
+            _ => LIMIT / 2,
+        }
+    };
+    for step in 0..steps {
+        let i = rng.below(pool.len());
+        let live: Vec<usize> = (0..pool.len()).filter(|k| pool[*k].is_some()).collect();
+        let r = rng.below(if live.is_empty() { 2 } else { 14 });
+        let mut what = String::new();
+        match r {
+            0 => {
+                let n = around(&mut rng);
+                let unit = *rng.pick(&["ab", "xyz0", "q"]);
+                let mut m = unit.repeat(n / unit.len() + 1);
+                m.truncate(n);
+                what = format!("from(len {n})");
+                pool[i] = Some((LeanString::from(m.as_str()), m));
+            }
+            1 => {
+                let n = around(&mut rng);
+                what = format!("with_capacity({n}) + push_str");
+                let mut s = LeanString::with_capacity(n);
+                let m = "w".repeat(rng.range(0, 40));
+                s.push_str(&m);
+                pool[i] = Some((s, m));
+            }
+            2 | 3 => {
+                let src = live[rng.below(live.len())];
+                what = format!("clone {src}->{i}");
+                let c = pool[src].as_ref().map(|(s, m)| (s.clone(), m.clone()));
+                pool[i] = c;
+            }
+            4 => {
+                what = format!("drop {i}");
+                pool[i] = None;
+            }
+            _ => {
+                let t = live[rng.below(live.len())];
+                let (s, m) = pool[t].as_mut().unwrap();
+                match r {
+                    5 | 6 => {
+                        let n = match rng.below(4) {
+                            0 => around(&mut rng).min(m.len()),
+                            1 => m.len().saturating_sub(rng.below(20)),
+                            2 => rng.range(0, 40).min(m.len()),
+                            _ => m.len().min(LIMIT),
+                        };
+                        what = format!("truncate({n}) on {t} (len {})", m.len());
+                        s.truncate(n);
+                        m.truncate(n);
+                    }
+                    7 => {
+                        what = format!("pop on {t}");
+                        if s.pop() != m.pop() {
+                            return fail("pop returned a different char", step);
+                        }
+                    }
+                    8 => {
+                        let n = *rng.pick(&[1usize, 3, 1000, 70_000]);
+                        what = format!("push_str({n}) on {t} (len {})", m.len());
+                        let add = "p".repeat(n);
+                        s.push_str(&add);
+                        m.push_str(&add);
+                    }
+                    9 => {
+                        let n = match rng.below(3) {
+                            0 => rng.range(0, 100),
+                            1 => around(&mut rng).saturating_sub(m.len()),
+                            _ => 5000,
+                        };
+                        what = format!("reserve({n}) on {t} (len {} cap {})", m.len(), s.capacity());
+                        s.reserve(n);
+                        if s.capacity() < m.len() + n {
+                            return fail("reserve postcondition", step);
+                        }
+                    }
+                    10 => {
+                        let n = if rng.chance(1, 2) { 0 } else { around(&mut rng) };
+                        let before = s.capacity();
+                        what = format!("shrink_to({n}) on {t} (len {} cap {before})", m.len());
+                        s.shrink_to(n);
+                        if s.capacity() > before.max(16) || s.capacity() < m.len() {
+                            return fail("shrink postcondition", step);
+                        }
+                    }
+                    11 => {
+                        what = format!("clear on {t}");
+                        s.clear();
+                        m.clear();
+                    }
+                    12 => {
+                        let idx = if m.is_empty() { 0 } else { rng.below(m.len().min(64)) };
+                        what = format!("insert_str({idx}) on {t}");
+                        s.insert_str(idx, "<>");
+                        m.insert_str(idx, "<>");
+                    }
+                    _ => {
+                        if !m.is_empty() {
+                            what = format!("remove(0) on {t}");
+                            if s.remove(0) != m.remove(0) {
+                                return fail("remove returned a different char", step);
+                            }
+                        }
+                    }
+                }
+            }
+        }
+        for (k, e) in pool.iter().enumerate() {
+            if let Some((s, m)) = e {
+                if s.len() != m.len() || s.capacity() < s.len() || s.as_bytes() != m.as_bytes() {
+                    return fail(&format!("after {what}: handle {k} has len {} (model {}), capacity {}", s.len(), m.len(), s.capacity()), step);
+                }
+            }
+        }
+    }
+    0
 }
